@@ -162,6 +162,9 @@ struct Model {
     need: [bool; 5],
     /// (consecutive failures, time of the last failure) per kind
     fails: [(u32, Option<u64>, usize); 5],
+    /// a mis-flagged reply (FIN missing on a non-READ response) may fail the task at once or be ignored until the
+    /// response timeout: the other possible failure instant of the last failure, per kind
+    alt_fail: [Option<u64>; 5],
     /// the outcome of an IIN2-rejected disable/enable/clear is left open: retried or given up
     open: [bool; 5],
     integrity_done: bool,
@@ -216,6 +219,7 @@ async fn run_case(case: &Case) -> CaseOut {
             case.enable_mask & 7 != 0,
         ],
         fails: [(0, None, 0); 5],
+        alt_fail: [None; 5],
         open: [false; 5],
         integrity_done: case.integrity.is_none(),
         time_step: 0,
@@ -343,7 +347,8 @@ async fn run_case(case: &Case) -> CaseOut {
                     out.label("retry_checked");
                     // the retry is due exactly then, unless a task of higher priority was in the way
                     let nothing_between = at + 1 == k;
-                    if t < tf + want || (nothing_between && t > tf + want + 10) {
+                    let off = |tf: u64| t < tf + want || (nothing_between && t > tf + want + 10);
+                    if off(tf) && m.alt_fail[kix].map(off).unwrap_or(true) {
                         out.fail(
                             Fail::new("retry-delay", format!("{:?} failed {n} time(s), last at t={tf}; retried at t={t}, i.e. after {} ms; the strategy (min {} max {}) prescribes {want} ms", kind, t - tf, case.retry_min, case.retry_max))
                                 .with_sig(format!("C17 retry-delay n={n} early={}", t < tf + want)),
@@ -376,6 +381,7 @@ async fn run_case(case: &Case) -> CaseOut {
         let mut success = false;
         let mut fail_time = t;
         let mut late_iin: Option<u8> = None;
+        let mut alt: Option<u64> = None;
         match beh {
             Beh::Ok(i1) => {
                 r.iin = Some((*i1, 0));
@@ -453,6 +459,9 @@ async fn run_case(case: &Case) -> CaseOut {
                 rig.respond(OUT, &r);
                 rig.settle().await;
                 fail_time = rig.now_ms();
+                if f.func != func::READ {
+                    alt = Some(t + TIMEOUT);
+                }
             }
             Beh::Silence => {
                 rig.advance(TIMEOUT).await;
@@ -484,6 +493,7 @@ async fn run_case(case: &Case) -> CaseOut {
             } else {
                 let n = m.fails[kix].0 + 1;
                 m.fails[kix] = (n, Some(fail_time), k);
+                m.alt_fail[kix] = alt;
                 m.time_step = 0;
             }
         }
@@ -555,6 +565,7 @@ async fn inject_after(
             let mut probe = Model {
                 need: m.need,
                 fails: m.fails,
+                alt_fail: m.alt_fail,
                 open: m.open,
                 integrity_done: m.integrity_done,
                 time_step: m.time_step,
